@@ -42,7 +42,7 @@ typedef struct {
 
 #define W_MAXTR 49152
 #define W_MAXFAULT 4
-#define W_MAXCHILD 64
+#define W_MAXCHILD 512
 
 typedef struct {
   uint8_t side, fn;
